@@ -743,6 +743,8 @@ def c20_families(rng, ts):
                 clockf["hhmm"].append("%02d%02d" % (h, m)); clockf["hhmm uhr"].append("%02d%02d uhr" % (h, m))
         clockf["h uhr"].append("%d uhr" % h); clockf["hh"].append("%dh" % h); clockf["h oclock"].append("%d o'clock" % h)
         clockf["h ap"].append("%d %s" % (h % 12 or 12, "am" if h < 12 else "pm")); clockf["hap"].append("%d%s" % (h % 12 or 12, "am" if h < 12 else "pm"))
+    # a bare number after a day ('monday 8') is deliberately not a clock family: it is as much a day of the month as an hour, and
+    # the unchanged library itself reads 'at friday 7' as Friday the 7th (round 8, C20-m11)
     clockf["named hour"] = samp(rng, G.L("ruleNamedHour"), 12)
     clockf["spoken"] = ["half past 8", "quarter to nine", "viertel vor 9", "halb 9", "quarter past 3", "midnight", "mitternacht"]
     return dayf, dict(clockf)
